@@ -85,6 +85,10 @@ Section Facts.
     rewrite (demanded_ext _ _ Hag), (reports_ext _ _ Hag), !(lstep_ext P C b b' 0 _ s Hag). reflexivity.
   Qed.
 
+  (* the kernel must unfold these wrappers first: otherwise conversion starts evaluating the
+     reachable set lazily and Qed does not come back *)
+  Strategy expand [check_beh check_all].
+
   Hypothesis Hcheck : check_all = true.
 
   Lemma facts_hold : forall b s, lreach P C b s -> f_all b s = true.
